@@ -55,6 +55,9 @@ pub enum Op {
     TransferIn { market: u8, long: bool, amount: u16 },
     Price { token: u8, pct: i8, spread: u8 },
     Clock { secs: u16 },
+    /// A receiver opens on one side, two payers with different collateral tokens open a larger opposite side, time
+    /// passes, then the receiver increases its (existing) position: claimable funding in both tokens is settled.
+    FundedIncrease { market: u8, receiver_long: bool, amount: u16, secs: u16 },
 }
 
 #[derive(Debug, Clone, Serialize, Deserialize)]
@@ -81,6 +84,7 @@ fn op() -> impl Strategy<Value = Op> {
         1 => (0u8..6, any::<bool>(), a()).prop_map(|(market, long, amount)| Op::TransferIn { market, long, amount }),
         4 => (0u8..4, prop_oneof![3 => -15i8..=15, 1 => -60i8..=60], 0u8..40).prop_map(|(token, pct, spread)| Op::Price { token, pct, spread }),
         1 => (prop_oneof![3 => 1u16..100, 1 => 100u16..5000]).prop_map(|secs| Op::Clock { secs }),
+        1 => (0u8..4, any::<bool>(), 200u16..1500, 600u16..20000).prop_map(|(market, receiver_long, amount, secs)| Op::FundedIncrease { market, receiver_long, amount, secs }),
     ]
 }
 
@@ -457,6 +461,16 @@ impl Run<'_> {
                 self.w.advance(*secs as i64);
                 self.rec.class("clock_change");
             }
+            Op::FundedIncrease { market, receiver_long, amount, secs } => {
+                let m = NON_PURE[*market as usize % 4] as u8;
+                let inc = |user: u8, is_long: bool, collateral_long: bool, amount: u16| Op::Increase { user, market: m, is_long, collateral_long, pay_other: false, amount, leverage: 4, fate: 0 };
+                self.step(&inc(0, *receiver_long, true, *amount))?;
+                self.step(&inc(1, !*receiver_long, true, amount.saturating_mul(2)))?;
+                self.step(&inc(2, !*receiver_long, false, amount.saturating_mul(3)))?;
+                self.step(&Op::Clock { secs: *secs })?;
+                self.step(&inc(0, *receiver_long, true, *amount / 2 + 1))?;
+                self.rec.class("funded_increase_scenario");
+            }
         }
         Ok(())
     }
@@ -486,7 +500,49 @@ impl Run<'_> {
                     let prep = self.w.ixs_prepare_claimables(keeper, r.market, r.owner, r.is_long);
                     self.all("use_claimable_account", &prep)?;
                 }
+                // claimable funding settled by an increase of an existing position goes to the order's long /
+                // short token escrows: remember what is needed to recompute it per token
+                let funding_probe = if r.is_increase() {
+                    r.position.and_then(|p| self.w.position_state(&p)).filter(|s| s.state.size_in_usd != 0).map(|s| {
+                        let info = self.w.markets[r.market].clone();
+                        (
+                            s.state.size_in_usd,
+                            s.state.long_token_claimable_funding_amount_per_size,
+                            s.state.short_token_claimable_funding_amount_per_size,
+                            token_amount(&self.w.vm, &ata(&r.order, &info.long)),
+                            token_amount(&self.w.vm, &ata(&r.order, &info.short)),
+                        )
+                    })
+                } else {
+                    None
+                };
                 if self.exec("execute_order", &self.w.ix_execute_order(&r, keeper, 5000, false))?.is_ok() {
+                    if let (Some((size, long_ps, short_ps, long_before, short_before)), Some(1)) = (funding_probe, w2::action_state(&self.w.vm, &r.order)) {
+                        let info = self.w.markets[r.market].clone();
+                        if let Some(after) = r.position.and_then(|p| self.w.position_state(&p)) {
+                            use num_bigint::BigInt;
+                            // floor(size * (latest - snapshot) / (adjustment * UNIT)), adjustment = 10^(MARKET_DECIMALS / 2)
+                            let denom = BigInt::from(10u128.pow(10)) * BigInt::from(10u128.pow(20));
+                            let expect = |latest: u128, prev: u128| -> BigInt { BigInt::from(size) * (BigInt::from(latest) - BigInt::from(prev)) / &denom };
+                            let want_long = expect(after.state.long_token_claimable_funding_amount_per_size, long_ps);
+                            let want_short = expect(after.state.short_token_claimable_funding_amount_per_size, short_ps);
+                            // what the order paid in from its escrows (no swap path: the pay token is the collateral token)
+                            let pay = r.initial_collateral_token.unwrap_or(r.final_output_token);
+                            let paid_long = if pay == info.long { r.amount } else { 0 };
+                            let paid_short = if pay == info.short && info.short != info.long { r.amount } else { 0 };
+                            let got_long = BigInt::from(token_amount(&self.w.vm, &ata(&r.order, &info.long))) + BigInt::from(paid_long) - BigInt::from(long_before);
+                            let got_short = BigInt::from(token_amount(&self.w.vm, &ata(&r.order, &info.short))) + BigInt::from(paid_short) - BigInt::from(short_before);
+                            if info.long != info.short {
+                                if got_long != want_long || got_short != want_short {
+                                    return Err(format!(
+                                        "increase of an existing position settled claimable funding (long token {got_long}, short token {got_short}) into the order's escrows, the position's per-size indices give (long {want_long}, short {want_short})"
+                                    ));
+                                }
+                                self.rec.class_if(want_long != BigInt::from(0) || want_short != BigInt::from(0), "increase_settled_claimable_funding");
+                                self.rec.class_if(want_long != want_short, "increase_settled_different_funding_amounts_per_token");
+                            }
+                        }
+                    }
                     match w2::action_state(&self.w.vm, &r.order) {
                         Some(1) => {
                             for m in r.path.iter().chain([&r.market]) {
@@ -550,7 +606,7 @@ pub fn run_c22(ctx: &mut Ctx) {
     ctx.assume("svm-lite is not the Solana runtime (no compute/heap limits); custom price feeds are written through the verif hook price_feed_update instead of a signed Chainlink report; the first signer of an instruction is treated as the writable fee payer; GLV actions, GLV shifts, ADL, closed-state updates and market toggles are the search `solvency_glv`; virtual inventories are not configured");
     let n = ctx.cases(800, 40_000);
     ctx.search("solvency", n, history, check_c22);
-    for (class, floor) in [("deposit_executed", 100), ("withdrawal_executed", 40), ("shift_executed", 20), ("multi_hop_swap_executed", 60), ("increase_executed", 100), ("decrease_executed", 30), ("liquidation_executed", 5), ("liquidation_rejected", 40), ("fees_claimed", 40), ("soft_cancelled", 60), ("owner_cancelled", 60), ("two_or_more_markets_touched", 200), ("withdrawal_out_path_of_2_or_more_markets", 40), ("decrease_out_path_of_2_or_more_markets", 15)] {
+    for (class, floor) in [("deposit_executed", 100), ("withdrawal_executed", 40), ("shift_executed", 20), ("multi_hop_swap_executed", 60), ("increase_executed", 100), ("decrease_executed", 30), ("liquidation_executed", 5), ("liquidation_rejected", 40), ("fees_claimed", 40), ("soft_cancelled", 60), ("owner_cancelled", 60), ("two_or_more_markets_touched", 200), ("withdrawal_out_path_of_2_or_more_markets", 40), ("increase_settled_claimable_funding", 40), ("decrease_out_path_of_2_or_more_markets", 15)] {
         ctx.floor(&format!("solvency:{class}"), floor);
     }
 }
